@@ -503,6 +503,24 @@ class Conc:
                         o.unknown.append({"reason": "spec error: %s" % e})
                         continue
                     self.record(o, st, goal, ins.get("pos"))
+        # function-level guarantees: what this function's critical sections may do to the guarded fields
+        if snap is not None and not self.quiet and fr is not None and fr.fn is self.cur.get("fn"):
+            d = self.type_invs.get(T)
+            _, obj = self.struct_type_at(p)
+            selfv = st.load(obj)
+            for cl in self.cur["decl"].get("guarantee"):
+                o = self.obl("guarantee", "%s:%s" % (lname, cl.label or "g"), cl.tags or None)
+                try:
+                    names = dict(self.cur["names"])
+                    names["self"] = obj
+                    ctx = SpecCtx(self, st, snap, names, fr_pkg=fr.fn["pkg"])
+                    ctx.name_types = dict(self.cur["name_types"])
+                    goal = to_bool(ctx.eval(cl.ast))
+                except (SpecError, Unsupported) as e:
+                    o.instances += 1
+                    o.unknown.append({"reason": "spec error: %s" % e})
+                    continue
+                self.record(o, st, goal, ins.get("pos"))
         # ghost token updates attached to this lock (after the guarantees, which speak about the token held during the section)
         if snap is not None:
             for tname, (tlock, take, drop, tdecl) in (self.token_decls.get(T) or {}).items():
@@ -536,24 +554,6 @@ class Conc:
                         o.unknown.append({"reason": "spec error: %s" % e})
                         continue
                     self.record(o, st, goal, ins.get("pos"))
-        # function-level guarantees: what this function's critical sections may do to the guarded fields
-        if snap is not None and not self.quiet and fr is not None and fr.fn is self.cur.get("fn"):
-            d = self.type_invs.get(T)
-            _, obj = self.struct_type_at(p)
-            selfv = st.load(obj)
-            for cl in self.cur["decl"].get("guarantee"):
-                o = self.obl("guarantee", "%s:%s" % (lname, cl.label or "g"), cl.tags or None)
-                try:
-                    names = dict(self.cur["names"])
-                    names["self"] = obj
-                    ctx = SpecCtx(self, st, snap, names, fr_pkg=fr.fn["pkg"])
-                    ctx.name_types = dict(self.cur["name_types"])
-                    goal = to_bool(ctx.eval(cl.ast))
-                except (SpecError, Unsupported) as e:
-                    o.instances += 1
-                    o.unknown.append({"reason": "spec error: %s" % e})
-                    continue
-                self.record(o, st, goal, ins.get("pos"))
         st.ghost[("lastobs", key)] = st.clone() if snap is not None else None
         st.held = st.held[:idx] + st.held[idx + 1:]
 
